@@ -132,13 +132,20 @@ def run_cond(argv, cwd, env=None, stdin_data=None, pre=None, timeout=120):
     return Result(os.WEXITSTATUS(status), out, err)
 
 
-def index_rows(root):
-    """rows of cond-out/version_index.sqlite read through a fresh connection (committed state only)"""
+def index_rows(root, while_running=False):
+    """rows of cond-out/version_index.sqlite read through a fresh connection (committed state only).
+    while_running: the caller polls while a `cond` process may be creating the index right now -- a file without its
+    table yet (or briefly locked) then simply has no rows to show"""
     p = os.path.join(root, "cond-out", "version_index.sqlite")
     if not os.path.exists(p):
         return []
     conn = sqlite3.connect("file:%s?mode=ro" % p, uri=True)
     try:
+        if while_running:
+            try:
+                return sorted(conn.execute("SELECT task_identifier, timestamp, git_commit_hash, has_uncommitted_changes FROM version_index").fetchall(), key=lambda r: (r[0], r[1]))
+            except sqlite3.OperationalError:
+                return []
         return sorted(conn.execute("SELECT task_identifier, timestamp, git_commit_hash, has_uncommitted_changes FROM version_index").fetchall(), key=lambda r: (r[0], r[1]))
     finally:
         conn.close()
